@@ -31,7 +31,8 @@ ASSUMPTIONS = [
     "table reads are never faulted (the quantifier faults writes only)",
 ]
 
-REJECTS = ["ERR", "INDEX_OUT_OF_RANGE", 0xEE]
+# rejection statuses: generic, index, undefined, and the "not found" / "entry erased" codes of both numberings
+REJECTS = ["ERR", "INDEX_OUT_OF_RANGE", 0xEE, 0x03, 0xB6, 0x2D]
 
 
 class McSim(simncp.SimNcp):
@@ -41,6 +42,7 @@ class McSim(simncp.SimNcp):
         self.table = [tuple(x) for x in table]  # (group, endpoint)
         self.answers = []
         self.writes = 0
+        self.read_fail = set()  # indices whose entry cannot be read (status error) - the host cannot know what is there
 
     def cmd_getConfigurationValue(self, configId):
         if configId.name == "CONFIG_MULTICAST_TABLE_SIZE":
@@ -53,6 +55,8 @@ class McSim(simncp.SimNcp):
         if index >= self.size:
             return {"status": "INDEX_OUT_OF_RANGE", "value": t.EmberMulticastTableEntry(multicastId=0, endpoint=0, networkIndex=0)}
         g, ep = self.table[index]
+        if index in self.read_fail:
+            return {"status": "ERR", "value": t.EmberMulticastTableEntry(multicastId=0, endpoint=0, networkIndex=0)}
         return {"status": "OK", "value": t.EmberMulticastTableEntry(multicastId=g, endpoint=ep, networkIndex=0)}
 
     def cmd_setMulticastTableEntry(self, index, value):
@@ -69,7 +73,8 @@ class McSim(simncp.SimNcp):
 
 
 def invariants(mc, sim, r, where):
-    ncp_groups = {g for g, ep in sim.table if ep != 0}
+    skip = sim.read_fail  # entries the host could not read are outside its view: not judged, but nothing else may shift
+    ncp_groups = {g for i_, (g, ep) in enumerate(sim.table) if ep != 0 and i_ not in skip}
     host_groups = {int(g) for g in mc._multicast}
     if host_groups != ncp_groups:
         r.bad("C15:mirror-differs", f"{where}: host {sorted(host_groups)} NCP {sorted(ncp_groups)} table {sim.table}")
@@ -77,7 +82,7 @@ def invariants(mc, sim, r, where):
     free = set(mc._available)
     if len(set(used)) != len(used) or set(used) & free:
         r.bad("C15:index-used-twice", f"{where}: used {used} free {sorted(free)}")
-    if set(used) | free != set(range(sim.size)):
+    if set(used) | free | (skip - set(used) - free) != set(range(sim.size)) or (set(used) | free) & skip:
         r.bad("C15:index-neither-free-nor-used", f"{where}: used {sorted(used)} free {sorted(free)} size {sim.size}")
     for g, (entry, idx) in mc._multicast.items():
         if idx < sim.size and sim.table[idx][0] != int(g):
@@ -92,6 +97,7 @@ async def scenario(loop, plan, r):
     import bellows.ezsp as e
 
     sim = McSim(loop, plan["v"], plan["size"], plan["table"])
+    sim.read_fail = set(plan.get("read_fail") or [])
     ezsp = e.EZSP({"path": "/dev/null"})
     sim.attach(ezsp)
     ezsp._switch_protocol_version(plan["v"])
@@ -247,7 +253,7 @@ async def scenario(loop, plan, r):
         if r.violations:
             return
     # behavioural probe: fresh groups can be subscribed exactly free-count times
-    ncp_free = sum(1 for _, ep in sim.table if ep == 0)
+    ncp_free = sum(1 for i_, (_, ep) in enumerate(sim.table) if ep == 0 and i_ not in sim.read_fail)
     okc = 0
     for k in range(sim.size + 2):
         sim.answers = ["ok"]
@@ -303,6 +309,13 @@ def plans(draw):
         else:
             ops.append([kind, draw(st.integers(1, 5)), draw(answer)])
     plan = {"v": draw(st.sampled_from([4, 8, 13, 14])), "size": size, "table": [list(x) for x in table], "ops": ops}
+    if size >= 2 and draw(st.integers(0, 5)) == 0:
+        # one entry (not the last) cannot be read during the scans; everything else must still line up
+        plan["read_fail"] = [draw(st.integers(0, size - 2))]
+        plan["ops"] = [o for o in ops if o[0] in ("sub", "unsub", "restart")] or [["sub", 1, "ok"]]
+        # a group that sits in the unreadable entry is invisible to the host: keep the operations away from it
+        hidden = {plan["table"][i_][0] for i_ in plan["read_fail"]}
+        plan["ops"] = [o for o in plan["ops"] if o[0] == "restart" or o[1] not in hidden] or [["restart"]]
     if draw(st.integers(0, 3)) == 0:
         plan["via"] = "endpoint"
         plan["ops"] = [o for o in ops if o[0] in ("sub", "unsub")] or [["sub", 1, "ok"]]
